@@ -340,6 +340,10 @@ pub enum Kind {
     // MapInstructions
     MapGet,
     MapInsert,
+    /// AssignmentInstructions: `assign_many` (or `assign` when `many` is false) of `len` bits /
+    /// bytes / natives; every element is exposed. Batches longer than the number of range-check
+    /// columns span several rows, each of which needs the range lookup
+    AssignMany { ty: Ty, len: usize, many: bool },
     /// operand provenance: the shaped operation `inner` with some operands taken from CONSTANT
     /// cells (`assign_fixed`, cached by value inside the chips) instead of witness cells; the
     /// input list holds the remaining (witness) operands only
@@ -502,6 +506,7 @@ impl Kind {
             Convert { .. } | ConvertUnsafeNY => "ConversionInstructions",
             VecObserve { .. } | VecFlags { .. } | VecTrim { .. } | VecResize { .. } => "VectorInstructions",
             MapGet | MapInsert => "MapInstructions",
+            AssignMany { .. } => "AssignmentInstructions",
             Fixed { inner, .. } => inner.trait_name(),
             Chain { .. } => "compositions",
         }
@@ -591,6 +596,7 @@ impl Kind {
             VecResize { .. } => "vector.resize".into(),
             MapGet => "map.get".into(),
             MapInsert => "map.insert+succinct_repr".into(),
+            AssignMany { ty, many, .. } => format!("{}<{}>", if *many { "assign_many" } else { "assign" }, ty.tag()),
             Fixed { inner, .. } => format!("{}(fixed operands)", inner.name()),
             Chain { src, steps } => format!("chain:{}+{}", src.name(), steps.iter().map(|s| s.name()).collect::<Vec<_>>().join("+")),
         }
@@ -623,6 +629,7 @@ impl Kind {
             VecObserve { t, m, a, .. } | VecFlags { t, m, a } => format!("{},M={m},A={a}", t.tag()),
             VecTrim { t, m, a, n } => format!("{},M={m},A={a},n={n}", t.tag()),
             VecResize { t, m, a, l } => format!("{},M={m},A={a},L={l}", t.tag()),
+            AssignMany { len, .. } => format!("len={len}"),
             Fixed { inner, consts } => {
                 let il = inner.label();
                 let params = il.strip_prefix(&inner.name()).unwrap_or("").to_string();
@@ -681,7 +688,7 @@ impl Kind {
             Select(t) | CondAssertEqual(t) | CondSwap(t) => vec![Ty::B, *t, *t],
             Convert { from, .. } => vec![*from],
             ConvertUnsafeNY => vec![Ty::N],
-            AssignLower(_) | VecObserve { .. } | VecFlags { .. } | VecTrim { .. } | VecResize { .. } | MapGet | MapInsert | Fixed { .. } | Chain { .. } => return None,
+            AssignLower(_) | VecObserve { .. } | VecFlags { .. } | VecTrim { .. } | VecResize { .. } | MapGet | MapInsert | AssignMany { .. } | Fixed { .. } | Chain { .. } => return None,
         })
     }
 
@@ -703,6 +710,9 @@ impl Kind {
         }
         if let Chain { .. } = self {
             return true;
+        }
+        if let AssignMany { ty, .. } = self {
+            return *ty != Ty::N;
         }
         matches!(
             self,
@@ -1181,13 +1191,36 @@ impl Entry {
                 let y: AssignedByte<F> = ng.convert_unsafe(l, n(0))?;
                 vec![A::Y(y)]
             }
-            AssignLower(_) | VecObserve { .. } | VecFlags { .. } | VecTrim { .. } | VecResize { .. } | MapGet | MapInsert | Fixed { .. } | Chain { .. } => unreachable!("raw kinds"),
+            AssignLower(_) | VecObserve { .. } | VecFlags { .. } | VecTrim { .. } | VecResize { .. } | MapGet | MapInsert | AssignMany { .. } | Fixed { .. } | Chain { .. } => unreachable!("raw kinds"),
         })
     }
 
     fn run_raw<L: Layouter<F>>(&self, s: &ZkStdLib, l: &mut L, w: Value<Vec<V>>) -> Result<(), Error> {
         use Kind::*;
         match &self.kind {
+            AssignMany { ty, len, many } => {
+                let outs: Vec<A> = match ty {
+                    Ty::N => {
+                        let vals: Vec<Value<F>> = (0..*len).map(|i| w.as_ref().map(|v| v[i].n())).collect();
+                        let r: Vec<AssignedNative<F>> = if *many { s.assign_many(l, &vals)? } else { vec![s.assign(l, vals[0])?] };
+                        r.into_iter().map(A::N).collect()
+                    }
+                    Ty::B => {
+                        let vals: Vec<Value<bool>> = (0..*len).map(|i| w.as_ref().map(|v| v[i].b())).collect();
+                        let r: Vec<AssignedBit<F>> = if *many { s.assign_many(l, &vals)? } else { vec![s.assign(l, vals[0])?] };
+                        r.into_iter().map(A::B).collect()
+                    }
+                    Ty::Y => {
+                        let vals: Vec<Value<u8>> = (0..*len).map(|i| w.as_ref().map(|v| v[i].y())).collect();
+                        let r: Vec<AssignedByte<F>> = if *many { s.assign_many(l, &vals)? } else { vec![s.assign(l, vals[0])?] };
+                        r.into_iter().map(A::Y).collect()
+                    }
+                };
+                for o in &outs {
+                    expose(s, l, o)?;
+                }
+                Ok(())
+            }
             Fixed { inner, consts } => {
                 let tys = inner.shape().expect("Fixed wraps a shaped kind");
                 assert_eq!(tys.len(), consts.len(), "harness: operand mask of the wrong length");
@@ -1571,7 +1604,7 @@ impl Entry {
                 _ => unreachable!(),
             },
             ConvertUnsafeNY => vec![x[0].n()],
-            VecObserve { .. } | VecFlags { .. } | VecTrim { .. } | VecResize { .. } | MapGet | MapInsert | Fixed { .. } | Chain { .. } => unreachable!("raw kinds use full_reference"),
+            VecObserve { .. } | VecFlags { .. } | VecTrim { .. } | VecResize { .. } | MapGet | MapInsert | AssignMany { .. } | Fixed { .. } | Chain { .. } => unreachable!("raw kinds use full_reference"),
         })
     }
 
@@ -1579,6 +1612,11 @@ impl Entry {
     fn full_reference(&self, x: &[V]) -> Option<(Vec<F>, usize)> {
         use Kind::*;
         match &self.kind {
+            AssignMany { .. } => {
+                let v: Vec<F> = x.iter().map(|v| v.enc()).collect();
+                let n = v.len();
+                Some((v, n))
+            }
             Fixed { inner, consts } => {
                 let full = merge_fixed(consts, x).expect("harness: witness operands do not match the operand mask");
                 let outs = Entry { kind: (**inner).clone(), cols: self.cols }.outputs(&full)?;
@@ -1707,7 +1745,7 @@ impl Entry {
             Some(_) => Some(x.iter().map(|v| v.enc()).collect()),
             None => match &self.kind {
                 Kind::AssignLower(_) => Some(vec![x[0].n()]),
-                Kind::Fixed { .. } => Some(x.iter().map(|v| v.enc()).collect()),
+                Kind::Fixed { .. } | Kind::AssignMany { .. } => Some(x.iter().map(|v| v.enc()).collect()),
                 Kind::Chain { src: Src::BytesRoundTrip(_), .. } => None,
                 Kind::Chain { .. } => Some(vec![x[0].enc()]),
                 _ => None,
@@ -1726,6 +1764,7 @@ impl Entry {
                     _ => false,
                 },
                 Kind::Chain { src, .. } => x.len() == 1 && x[0].ty() == src.ty(),
+                Kind::AssignMany { ty, len, .. } => x.len() == *len && x.iter().all(|v| v.ty() == *ty),
                 Kind::VecObserve { t, m, .. } | Kind::VecFlags { t, m, .. } | Kind::VecTrim { t, m, .. } | Kind::VecResize { t, m, .. } => {
                     x.len() <= *m && x.iter().all(|v| v.ty() == *t)
                 }
@@ -1829,6 +1868,31 @@ pub struct Extra {
 }
 
 impl Entry {
+    /// typed inputs cannot be written outside their domain off-circuit; the constraints are
+    /// attacked instead: every element of an assigned batch is moved to the first value outside
+    /// its type (256 in a byte, 2 in a bit), one index at a time
+    pub fn ood_attacks(&self, x: &[V]) -> Vec<Extra> {
+        let mut out = vec![];
+        if let Kind::AssignMany { ty, .. } = &self.kind {
+            let bad = match ty {
+                Ty::Y => F::from(256),
+                Ty::B => F::from(2),
+                Ty::N => return out,
+            };
+            for i in 0..x.len() {
+                let mut t: Vec<F> = x.iter().map(|v| v.enc()).collect();
+                t[i] = bad;
+                out.push(Extra { base: x.to_vec(), target: t, why: "one element of the assigned batch moved outside its type's range", wide: false });
+                if *ty == Ty::Y {
+                    let mut t: Vec<F> = x.iter().map(|v| v.enc()).collect();
+                    t[i] = -F::ONE;
+                    out.push(Extra { base: x.to_vec(), target: t, why: "one element of the assigned batch moved outside its type's range", wide: false });
+                }
+            }
+        }
+        out
+    }
+
     /// "value + modulus" representations and wrap-around quotients
     pub fn alt_attacks(&self, x: &[V]) -> Vec<Extra> {
         use Kind::*;
